@@ -90,3 +90,56 @@ func Harness_C08_note_desc_reload() {
 	verifAssert(live.read == re.read && live.recv == re.recv, "reload-equals-live: description marks")
 	verifReach("end")
 }
+
+// A member's last session leaves (plain {leave}, or the connection drops) while the topic stays loaded: the
+// member stays a member - its cached record is kept and still equals the stored one, whether or not the group is
+// channel-enabled (only channel READERS, who subscribe by the chn spelling, are not cached permanently).
+func Harness_C08_leave_keeps_the_member() {
+	kind := []int{verifKindGrp, verifKindChn}[verifChoose("kind", 2)]
+	fx := verifNewTopic(kind, 2)
+	t := fx.topic
+	verifNotified = nil
+	t.lastID = verifSeq("lastID")
+	st := fx.store.topics[t.name]
+	st.SeqId, st.Access, st.UseBt = t.lastID, types.DefaultAccess{Auth: t.accessAuth, Anon: t.accessAnon}, kind == verifKindChn
+	for _, u := range fx.uids {
+		fx.store.users[u] = &types.User{State: types.StateOK, Access: types.DefaultAccess{Auth: types.ModeCAuth}}
+	}
+	// exactly one owner (the fixture starts everybody with full modes)
+	m1 := t.perUser[fx.uids[1]]
+	m1.modeWant, m1.modeGiven = types.ModeCPublic, types.ModeCPublic
+	t.perUser[fx.uids[1]] = m1
+	r1 := fx.store.subs[verifSubKey(t.name, fx.uids[1])]
+	r1.ModeWant, r1.ModeGiven = types.ModeCPublic, types.ModeCPublic
+	who := verifChoose("who", 2)
+	u := fx.uids[who]
+	pud := t.perUser[u]
+	if who == 1 {
+		pud.modeWant = types.ModeCPublic &^ types.ModePres // stored state that differs from the defaults
+	}
+	pud.readID, pud.recvID, pud.private = 1, 2, "note"
+	verifAssume(t.lastID >= 2)
+	t.perUser[u] = pud
+	row := fx.store.subs[verifSubKey(t.name, u)]
+	row.ModeWant, row.ModeGiven, row.ReadSeqId, row.RecvSeqId, row.Private = pud.modeWant, pud.modeGiven, 1, 2, "note"
+	s := verifNewSession("sid-a", u, auth.LevelAuth, 16)
+	s.inflightReqs = newBoundedWaitGroup(8)
+	fx.attach(s, u, false)
+	users := fx.uids
+	pre := verifImageOfTopic(t)
+	if verifNondetBool("connectionDropped") {
+		t.unregisterSession(&ClientComMessage{sess: s, init: false})
+	} else {
+		s.inflightReqs.Add(1)
+		t.unregisterSession(&ClientComMessage{Id: "l1", AsUser: u.UserId(), AuthLvl: int(auth.LevelAuth), Original: t.name, RcptTo: t.name,
+			Timestamp: types.TimeNow(), sess: s, init: true, Leave: &MsgClientLeave{Id: "l1", Topic: t.name}})
+	}
+	_, still := t.sessions[s]
+	verifAssert(!still, "session-detached")
+	live := verifImageOfTopic(t)
+	verifAssertSameImage(pre, live, users, "leaving-changes-nothing-clients-can-query")
+	t2, err := verifReload(t.name)
+	verifAssert(err == nil, "reload-works")
+	verifAssertSameImage(live, verifImageOfTopic(t2), users, "reload-equals-live")
+	verifReach("end")
+}
